@@ -84,7 +84,13 @@ def main():
             print("cannot run the correspondence: the repository does not compile with the verification harness")
             sys.exit(2)
         if a.replay:
-            requests = [q for q in fixed_requests if not q.startswith(("enum ", "stat "))]
+            requests = [q for q in fixed_requests if not q.startswith(("enum ", "stat ", "statd "))]
+            statd_reqs = [q for q in fixed_requests if q.startswith("statd ")]
+            if statd_reqs:
+                from vlib.stat_oracle import judge_statd_lines
+                for item in judge_statd_lines(binary, statd_reqs, "replayed-statistics", build):
+                    if item.pop("kind") == "oracle":
+                        oracle_fail.append(item)
             stat_reqs = [q for q in fixed_requests if q.startswith("stat ")]
             if stat_reqs:
                 from vlib.stat_oracle import run_stat
@@ -214,6 +220,8 @@ def main():
     fi = violation.get("failing_input") or violation.get("first_disagreement")
     if fi:
         violation["request"] = fi["request"]
+        if fi.get("requests"):
+            violation["requests"] = fi["requests"]
     json.dump(violation, open(rpath, "w"), indent=1)
     tail = " no-failing-input-found" if violation.get("no_failing_input_found") else ""
     print("VIOLATION property=%s replay=%s%s" % (prop, rpath, tail))
